@@ -228,8 +228,10 @@ func checks() map[string]CheckDef {
 					"C18/admission-counts-host-and-group", "C18/counters-return-when-peer-leaves", "C18/ban-lasts-the-configured-duration", "C18/expired-ban-is-dropped-on-admission", "C18/ban-kept-until-expiry-then-dropped"}},
 			{Pkg: "transports/p2p", Func: "HarnessBan",
 				Labels: []string{"C18/ban-runs-from-the-latest-ban", "C18/ban-changes-no-counter", "C18/banned-host-is-refused-while-the-ban-runs"}},
+			{Pkg: "transports/p2p", Func: "HarnessPeerStateStep", Quick: [][]int64{{0}, {1}, {2}}, Thorough: [][]int64{{3}, {4}},
+				Labels: []string{"C18/counters-always-match-the-peer-lists", "C18/never-above-per-host-limit"}},
 		},
-		Bounds:  []string{"one add / done / ban step of the server's peer handler from an arbitrary peer state around one host: total peers in {0, 1, MaxPeers-1, MaxPeers, MaxPeers+1}, the host's connection counter and the group counter any value < 2^20, ban entry absent or ending any number of seconds (|delta| in 2..100000) before or after now, ban duration 0/1/2 h, server shutting down or not, peer inbound / outbound / persistent", "the counting argument 'counters return to zero' is this +1/-1 symmetry applied event by event (induction over events: argument)"},
+		Bounds:  []string{"one add / done / ban step of the server's peer handler from an arbitrary peer state around one host: total peers in {0, 1, MaxPeers-1, MaxPeers, MaxPeers+1}, the host's connection counter and the group counter any value < 2^20, ban entry absent or ending any number of seconds (|delta| in 2..100000) before or after now, ban duration 0/1/2 h, server shutting down or not, peer inbound / outbound / persistent", "bookkeeping invariant, inductive step: from every state of k listed peers (quick k<=2, thorough k<=4; each inbound / outbound / persistent, on one of two hosts) whose counters match the lists, one arbitrary event (admission request of a new peer of any kind and, if refused, its done event; a listed peer leaving; a never-admitted peer leaving; a ban) leaves the counters matching the lists - 'counters return to zero when all peers have left' follows by induction over events"},
 		Outside: []string{"the connection manager half of the property (outbound target kept, redial after failure): connmgr.connHandler is a select loop over channels and timers, not encodable", "ban boundaries within one second of now (left out so that replays on the real clock are deterministic)", "addrmgr.GroupKey is an uninterpreted function of the address", "per-host limit counts non-persistent peers only (persistent peers are operator-added and deliberately not counted)"},
 		Stubs:   []string{"real server / serverPeer / peer.Peer objects without sockets (in-package constructors)", "time.Now arbitrary non-decreasing; the step is assumed to take at most one second"},
 	})
